@@ -1,5 +1,6 @@
-"""C12 (MSM/FFT), engine K part: the Booth window recoding `get_booth_index` (hook H5) for ALL scalars.
-Harnesses: /verif/engines/kani/curves/src/c12.rs."""
+"""C12 (MSM/FFT), engine K part: the Booth window recoding `get_booth_index` (hook H5) for ALL scalars, the batch-affine adder on toy
+curves (hook H7), and the window loop of the real generic `msm_serial` at toy groups with 1..3-byte scalar fields (notes/K4.md).
+Harnesses: /verif/engines/kani/curves/src/c12.rs, toy types src/toy.rs, src/toy_msm.rs."""
 from vf import core, kani
 
 CRATE = "engines/kani/curves"
@@ -43,6 +44,68 @@ SPECS = [
       est=60, timeout=1200, flags=["--no-assertion-reach-checks"]),
 ]
 
+# ---- the window loop of the REAL generic msm_serial at toy groups (notes/K4.md; added after seeded change C12-c) ----
+FM = ["curves/src/msm.rs::msm_serial"]
+NOREACH = ["--no-assertion-reach-checks"]
+QNAME = {163: "one-byte scalar field F_163", 65521: "two-byte scalar field F_65521", 16777213: "three-byte scalar field F_16777213"}
+
+
+def _msm(harness, oid, what, bound, key, tiers, est, functions=FM):
+    # level 1 of the native replay = the same harness body (real generic msm_serial + real get_booth_index at the toy group) on the
+    # solver's values; it also prints level 2 (msm_best / msm_parallel / msm_serial on the real BLS12-381 G1 with the same scalars),
+    # which needs the real blst, hence replay_real
+    d = H(harness, oid, what, functions, bound, key, tiers=tiers, est=est, timeout={"quick": 600, "thorough": 1800}, flags=NOREACH,
+          stubs=["get_booth_index -> c12::booth_digit_by_definition (proved equal by C12.K.booth.short.l1..l3)"])
+    d["replay_bin"] = "replay_real"
+    return d
+
+
+def _unit(q, n, tiers, est):
+    c = 1 if n < 4 else 3
+    return _msm(f"c12::msm_serial_unit_q{q}_n{n}", f"C12.K.msm_serial.unit.q{q}.n{n}",
+                f"msm_serial (acc = identity) with {n} base(s), window size {c}: with base j the formal point P and the others the identity (j symbolic), "
+                "the result is scalar_j * P modulo q, and msm_serial never inspected a point; by linearity this fixes every coefficient of sum_i scalar_i * base_i",
+                f"ALL {n}-tuples of scalars of the {QNAME[q]} (0, q-1, short scalars with the top bit of their top byte set), every j < {n}",
+                f"msm_serial:window-count:q{q}:n{n}", tiers, est)
+
+
+Q, T, QT = ("quick", "thorough"), ("thorough",), ("quick", "thorough")
+SPECS += [
+    H(f"c12::booth_short_slices_l{l}", f"C12.K.booth.short.l{l}",
+      f"get_booth_index on a {l}-byte scalar equals the loop-free Booth definition that stands in for it inside the msm_serial harnesses "
+      "(and the module's first statement of the definition)", F, f"all {l}-byte scalars, window sizes 1..=4, window indices 0..=8*{l}/c + 1",
+      f"get_booth_index:short-slice:l{l}", est=8, timeout={"quick": 200, "thorough": 900})
+    for l in (1, 2, 3)
+] + [
+    H("c12::toy_e139_is_a_group_of_order_163", "C12.K.toy.e139.group",
+      "environment validation: the affine chord-and-tangent law on y^2 = x^3 + 2 over F_139 is the cyclic group Z_163 (every pair of multiples of G = (3, 53) "
+      "against an independently computed table; every curve point is a multiple of G), so C12.K.msm_serial.z163.n1 speaks about this curve",
+      [], "all 163 x 163 pairs of points, all points of the curve", "toy-curve:e139:group-law", est=80, timeout={"quick": 600, "thorough": 1800}, flags=NOREACH),
+    _msm("c12::msm_serial_dlog163_n1", "C12.K.msm_serial.z163.n1",
+         "msm_serial (acc = identity) with ONE base in the group of prime order 163 (= the toy curve y^2 = x^3 + 2 over F_139 by C12.K.toy.e139.group): "
+         "result == scalar * base by plain double-and-add", "every group element as base (identity included) x every scalar of F_163",
+         "msm_serial:window-count:z163:n1", QT, 45),
+    _msm("c12::msm_serial_zp_q163_n1", "C12.K.msm_serial.weights.q163.n1",
+         "msm_serial with one base of integer weight -2..=2: result == scalar * weight modulo 163", "all scalars of F_163, weights -2..=2",
+         "msm_serial:weights:q163:n1", T, 50),
+    _msm("c12::msm_serial_zp_q163_n2", "C12.K.msm_serial.weights.q163.n2",
+         "msm_serial with two bases of integer weights -2..=2 (repeated, opposite and identity bases among them): result == sum_i scalar_i * weight_i modulo 163",
+         "all pairs of scalars of F_163, all weights in -2..=2", "msm_serial:weights:q163:n2", QT, 100),
+    _unit(163, 2, T, 50), _unit(163, 3, QT, 60), _unit(163, 4, QT, 85),
+    _unit(65521, 1, T, 60), _unit(65521, 2, T, 90), _unit(65521, 3, QT, 120), _unit(65521, 4, T, 220),
+    _unit(16777213, 1, QT, 130), _unit(16777213, 2, T, 200), _unit(16777213, 3, T, 260), _unit(16777213, 4, T, 420),
+] + [
+    _msm(f"c12::msm_serial_lin_q163_n{n}", f"C12.K.msm_serial.free.q163.n{n}",
+         f"msm_serial with {n} independent formal points (free module of rank {n}): every coefficient of the result equals its scalar modulo 163",
+         f"all {n}-tuples of scalars of F_163", f"msm_serial:free-module:q163:n{n}", T, 60 * n)
+    for n in (2, 3)
+] + [
+    dict(H("c12::msm_serial_real_booth_q163_n1", "C12.K.msm_serial.real_booth.q163.n1",
+           "end-to-end anchor of the assume-guarantee split: msm_serial with the REAL get_booth_index inside (no stand-in), one base of integer weight -2..=2",
+           FM + F, "all scalars of F_163, weights -2..=2", "msm_serial:real-booth:q163:n1", tiers=T, est=90, timeout=1800, flags=NOREACH),
+         replay_bin="replay_real"),
+]
+
 
 def check(run):
     run.bounds.append("K/C12: window sizes 1..=16, every window index the two MSM loops can pass, ALL scalar bytes; telescoping for c in %s" % (TELE_C,))
@@ -56,6 +119,32 @@ def check(run):
         "K/C12: the flush-when-full path of Schedule::add (64 pending entries need 64 distinct non-empty buckets), the Jacobian `Bucket` accumulation and the window summation of msm_best (projective group ops)",
         "K/C12: `bitreverse` is a nested fn of best_fft (not callable; the FFT as a linear map is engine S's obligation); the serial bucket accumulation of msm_serial (group arithmetic)",
         "K/C12: the full 256-bit telescoping identity follows from the per-window definition (proved for all scalars) by the algebra written in c12.rs; it is machine-checked here for 32-bit scalars only",
+    ]
+    run.bounds.append("K/C12 msm_serial: 1..=4 bases (window sizes 1 and 3), acc = identity on entry, ALL scalars of toy scalar fields of 1, 2 and 3 bytes "
+                      "(q = 163, 65521, 16777213); groups: Z_163 (= the curve y^2 = x^3 + 2 over F_139) with every element as base, and integer-weight / "
+                      "free-module points for which the statement transfers to every abelian group of exponent q")
+    run.assumptions += [
+        "K/C12 msm_serial: the code is generic in C: CurveAffine and reaches the group only through identity/double/+/+=/neg and the scalars only through "
+        "to_repr()/NUM_BITS (type-checked: every other trait method of the toy instance is unimplemented!() or counted, and the count is asserted to be 0), "
+        "so the toy instance transfers to BLS12-381 G1 / Fq; the scalar byte length (1..3 instead of 32) is the bound",
+        "K/C12 msm_serial: acc = identity on entry (what msm_parallel, its only caller in the repository, passes; msm_serial doubles acc c * windows times, "
+        "so it is not additive in a non-identity acc and its doc comment does not say what acc means)",
+    ]
+    run.translator_validation.append(
+        "K/C12 msm_serial: the Booth stand-in used under Kani is proved equal to the real get_booth_index on its whole asserted domain (C12.K.booth.short.l1..l3); "
+        "C12.K.msm_serial.real_booth.q163.n1 (thorough) runs without it; the native replay always runs the real function; the toy curve's law is proved to be "
+        "Z_163 against a table computed by an independent python implementation (C12.K.toy.e139.group)")
+    run.outside += [
+        "K/C12 msm_serial: more than 4 bases (window sizes ceil(ln n) >= 4 need n >= 32; f64 ln is not modelled by CBMC), scalars longer than 3 bytes (the real 32-byte "
+        "width follows by genericity only), a non-identity accumulator on entry",
+        "K/C12: msm_parallel's chunking (`coeffs.len() / num_threads`, `chunks(chunk)`, rayon::scope, the final fold) and rayon scheduling: inlined in a generic function "
+        "that calls rayon::current_num_threads(); only its leaf msm_serial is decided. msm_best for c < 10 is msm_parallel",
+        "K/C12: msm_best's own window loop for c >= 10 (>= 8104 bases): window count NUM_BITS/c + 1 is decided by C12.K.booth.msm_best.windows, the batch-affine adder by "
+        "C12.K.batch_add.*, but the loop that puts them together (Schedule, Jacobian buckets, per-window shift `for _ in 0..c*w`, final sum) is not executed",
+        "K/C12 msm_serial directly on the toy CURVE's coordinates (harnesses c12::msm_serial_e139_n1/n2, kept in the source, not registered): the solver would have to "
+        "rediscover the group law through 50 chord-and-tangent steps; no answer in 15 min. Replaced by Z_163 + the proved isomorphism",
+        "K/C12 msm_serial with full-range symbolic bases AND two or more symbolic scalars in Z_163 (c12::msm_serial_dlog163_n2/n3) or weights -2..=2 with 3 bases: "
+        "products of independent unknowns, no answer in 15 min; the unit-vector family decides the same coefficients one at a time",
     ]
     kani.run_harnesses(run, CRATE, SPECS)
 
